@@ -689,6 +689,12 @@ error:
   if (result == 0) {
     result = ORC_COMPILE_RESULT_UNKNOWN_COMPILE;
   }
+  if (program->orccode == NULL && !ORC_COMPILE_RESULT_IS_FATAL (result)) {
+    /* the failure came before there was anything the emulator could run
+     * (too many instructions or temporaries after rewriting ...): a
+     * non-fatal result would promise a working fallback */
+    result = ORC_COMPILE_RESULT_UNKNOWN_PARSE;
+  }
   if (compiler->asm_code) {
     free (compiler->asm_code);
     compiler->asm_code = NULL;
